@@ -296,10 +296,23 @@ func GenC12(rng *rand.Rand, thorough bool, emit func(*Sx)) {
 									f.cmd("STARTTLS", 502)
 									f.cmd("QUIT", 221)
 								} else {
-									// available: the command is accepted (220); no handshake follows, so 550
+									// available: the command is accepted (220); plaintext follows instead of a
+									// handshake, so 550 - and the connection is still a plaintext one
 									f.cmd("STARTTLS", 220, 550)
+									f.cut()
+									f.raw("NOOP\r\n") // read by the failed handshake
+									f.cut()
+									switch {
+									case !insecure:
+										f.cmd("AUTH PLAIN AGEAYg==", 523)
+									case !auth:
+										f.cmd("AUTH PLAIN AGEAYg==", 504)
+									default:
+										f.cmd("AUTH PLAIN AGEAYg==", 503)
+									}
+									f.cmd("QUIT", 221)
 								}
-								emit(RunConv(f.caseOf("C12", segStream(rng, f.out, nil, idx%2, rawEOF))))
+								emit(RunConv(f.caseOf("C12", segStream(rng, f.out, f.cuts, idx%2, rawEOF))))
 							}
 						}
 					}
